@@ -19,7 +19,7 @@ STRATS = (
     [(0, {}, None)]
     + [(1, {"SMT": smt}, None) for smt in ([100] * 4, [80, 60, 40, 20], [70] * 4, [0] * 4, [20, 40, 60, 80])]
     + [(2, {"IrrInterval": k}, None) for k in (1, 3, 7)]
-    + [(3, {}, sch) for sch in ("empty", "inseason", "outside", "daily", "big")]
+    + [(3, {}, sch) for sch in ("empty", "inseason", "outside", "daily", "big", "beyond_window")]
     + [(4, {"NetIrrSMT": x}, None) for x in (50, 80, 100)]
     + [(5, {"depth": d}, None) for d in (0, 8, 40)]
 )
@@ -89,13 +89,13 @@ def run(scn):
 
 def describe(tier):
     return {
-        "rule": "the complete irrigation sub-product: 20 strategy settings (method 0; 1 x 5 threshold vectors (descending, ascending, constant) from WP / FC / 40 % / 70 % of TAW; 2 x 3 intervals; 3 x 5 schedules incl. "
-                "empty / dates outside seasons / every day / depth above the daily maximum; 4 x 3 targets; 5 x 3 depths) x MaxIrr {25,5,0} x "
+        "rule": "the complete irrigation sub-product: 21 strategy settings (method 0; 1 x 5 threshold vectors (descending, ascending, constant) from WP / FC / 40 % / 70 % of TAW; 2 x 3 intervals; 3 x 6 schedules incl. "
+                "empty / dates outside seasons / dates before the simulation start and after its end / every day / depth above the daily maximum; 4 x 3 targets; 5 x 3 depths) x MaxIrr {25,5,0} x "
                 "MaxIrrSeason {10000,60,0} x AppEff {100,70,40} x initial water {WP,FC} x words x 2 seasons with pre-season days"
                 + ("" if tier == "quick" else "; plus off-season/partial-wetting variants and Maize/Wheat at full length")
                 + "; the per-strategy contract is evaluated on every transition, the threshold/interval decision and amount are re-computed from the "
                 "inputs and outputs of the real irrigation() call captured by a pass-through wrapper and cross-checked against the IrrDay column.",
-        "bound": "sub-product complete: 20 x 3 x 3 x 3 x (2 or 4 initial contents) x " + ("1 word x 1 crop" if tier == "quick" else "2 words x 2 crops"),
+        "bound": "sub-product complete: 21 x 3 x 3 x 3 x (2 or 4 initial contents) x " + ("1 word x 1 crop" if tier == "quick" else "2 words x 2 crops"),
         "exhaustive": True,
         "witnesses": WITNESSES,
         "assumptions": ["'adjusted for application efficiency' is accepted either as x(200-AppEff)/100 (the code's) or as /(AppEff/100)",
